@@ -283,11 +283,11 @@ CONDITIONS = [
                                    [{'fallback': 0, 'subst': 0, 'first': x, 'firstrep': y, 'nested': True} for x in (None, 4) for y in (0, 6)] +
                                    [{'fallback': 0, 'subst': 0, 'first': 6, 'firstrep': y, 'out_handler': True} for y in (0, 6)],
                          'witness_shard': {'fallback': 1, 'subst': 5, 'first': 0, 'firstrep': 1}},
-               'thorough': {'bounds': {'LREC': 2, 'LREP': 2, 'RECOPS': [0, 1, 2, 3, 4, 5, 6], 'REPOPS': [0, 1, 4, 5, 6]},
+               'thorough': {'bounds': {'LREC': 2, 'LREP': 2, 'RECOPS': [0, 2, 4, 6], 'REPOPS': [0, 1, 4, 6]},
                             'timeout': 6000,
                             'shards': [{'fallback': f, 'subst': sb, 'first': x, 'firstrep': y}
                                        for f, sb in ((1, 5), (3, 1))
-                                       for x in (None, 0, 1, 2, 3, 4, 5, 6) for y in (None, 0, 1, 4, 5, 6)] +
+                                       for x in (None, 0, 2, 4, 6) for y in (None, 0, 1, 6)] +
                                       [{'fallback': f, 'subst': 0, 'first': x, 'firstrep': y, 'nested': True} for f in (0, 1)
                                        for x in (None, 0, 2, 4) for y in (0, 1, 6)] +
                                       [{'fallback': 0, 'subst': 0, 'first': x, 'firstrep': y, 'out_handler': True} for x in (None, 0, 6) for y in (0, 6)],
